@@ -10,7 +10,7 @@ import json,re
 c=json.load(open('seeded/$N/meta.json'))['demo_cmd'].strip()
 c=re.sub(r'^\(\s*','',c); c=re.sub(r'\s*\)$','',c)
 c=c.replace('cd <worktree> && ','')
-c=re.sub(r'cd /tmp/seed2?-C\d+\s*(&&|;)\s*','',c)
+c=re.sub(r'cd /tmp/seed\d?-C\d+\s*(&&|;)\s*','',c)
 c=re.sub(r'git apply [^&;]*(&&|;)','',c)
 i=c.find('go1.26 test'); j=c.find(';',i)
 if i>=0 and j>=0: c=c[:j]
